@@ -48,6 +48,8 @@ pub struct ModScript {
   /// latency control: while `hold` is set every call parks until the harness releases it (`Some(true)`: answer as
   /// scripted, `Some(false)`: fail) — the real handler is suspended inside the modulator call meanwhile
   pub hold: bool,
+  /// when non-empty only calls whose description starts with this prefix are parked
+  pub hold_prefix: String,
   pub parked: Vec<(String, tokio::sync::oneshot::Sender<bool>)>,
 }
 
@@ -69,6 +71,7 @@ impl ScriptedModulator {
         direct: Some(true),
         calls: Vec::new(),
         hold: false,
+        hold_prefix: String::new(),
         parked: Vec::new(),
       })),
       pool: Pool::new(64, max_payload.max(1)),
@@ -78,7 +81,7 @@ impl ScriptedModulator {
   async fn gate(&self, what: String) -> bool {
     let rx = {
       let mut s = self.script.lock().unwrap();
-      if !s.hold {
+      if !s.hold || !what.starts_with(s.hold_prefix.as_str()) {
         return true;
       }
       let (tx, rx) = tokio::sync::oneshot::channel();
@@ -92,6 +95,12 @@ impl ScriptedModulator {
   }
   pub fn parked(&self) -> Vec<String> {
     self.script.lock().unwrap().parked.iter().map(|p| p.0.clone()).collect()
+  }
+  /// parked calls whose handler is still alive (a cancelled request task drops its receiver); dead ones are forgotten
+  pub fn parked_live(&self) -> usize {
+    let mut s = self.script.lock().unwrap();
+    s.parked.retain(|p| !p.1.is_closed());
+    s.parked.len()
   }
   /// lets the `i`-th parked call return (ok = as scripted, !ok = error)
   pub fn release(&self, i: usize, ok: bool) {
